@@ -105,6 +105,20 @@ def helper_closure(ctx, tabs):
         for rname, row in sorted(t["rows"].items()):
             listed = (row.get("c_helper") or "").split()
             if rname.startswith("f_"):
+                # a Fortran row that asks for a C-implemented helper: that helper (and what it depends on) must have
+                # code for the language of the library, else the module binds to a function nobody defines
+                if lang == "c" and rname.split("_")[1] in ("string", "vector", "shadow"):
+                    continue
+                for hname in listed:
+                    if hname not in CH:
+                        continue
+                    for dep in closure(CH, [hname], CH):
+                        hh = CH.get(dep) or {}
+                        has = any(isinstance(hh.get(k), str) and hh.get(k).strip() for k in ("source", lang + "_source"))
+                        needs = any(isinstance(hh.get(k), str) and hh.get(k).strip() for k in ("source", "c_source", "cxx_source"))
+                        ctx.item("C05/T1/%s/%s.c_helper:%s.source" % (lang, rname, dep), has or not needs,
+                                 "Fortran row %s relies on the C helper %s, which has no source for language %s" % (rname, dep, lang),
+                                 sample={"row": rname, "helper": dep, "lang": lang})
                 continue
             for hname in listed:
                 ctx.item("C05/T1/%s/%s.c_helper:%s" % (lang, rname, hname), hname in CH or "{" in hname,
@@ -122,6 +136,66 @@ def helper_closure(ctx, tabs):
                 ctx.item("C05/T1/%s/%s.calls:%s" % (lang, rname, fn), ok,
                          "row %s calls %s() but lists helpers %r (closure %r), none of which defines it" % (rname, fn, listed, reach),
                          sample={"row": rname, "lang": lang, "calls": fn, "c_helper": listed})
+
+
+LIBC = {"strlen": "string", "memcpy": "string", "memset": "string", "strcpy": "string", "strncpy": "string",
+        "strcmp": "string", "strncmp": "string", "memmove": "string", "strcat": "string", "memcmp": "string"}
+LIBC_HEADER = {("string", "c"): "<string.h>", ("string", "cxx"): "<cstring>"}
+LIBC_RX = re.compile(r'(?<![\w>.])(?:\{stdlib\}|std::)?(%s)\s*\(' % "|".join(sorted(LIBC)))
+
+
+def libc_header_closure(ctx, tabs):
+    """C05/T2: a row whose code templates call a <string.h> function gets the declaring header into the wrapper file:
+    through its own (inherited) impl_header list or through the include list of a helper it lists (closure).  Without
+    it the wrapper compiles only if the user's header happens to drag the declaration in."""
+    for lang, t in sorted(tabs.items()):
+        CH = t["CHelpers"]
+        for rname, row in sorted(t["rows"].items()):
+            if rname.startswith("f_"):
+                continue
+            if lang == "c" and rname.split("_")[1] in ("string", "vector", "shadow"):
+                continue     # C++-only argument groups: never selected for a C library
+            used = set()
+            for line in row_text(row):
+                for m in LIBC_RX.finditer(line):
+                    used.add(m.group(1))
+            if not used:
+                continue
+            have = set(row.get("impl_header") or []) | set(row.get(lang + "_impl_header") or [])
+            listed = [h for h in (row.get("c_helper") or "").split() if h in CH]
+            for h in closure(CH, listed, CH):
+                hh = CH.get(h) or {}
+                have |= set(hh.get(lang + "_include") or []) | set(hh.get("include") or [])
+            for fn in sorted(used):
+                need = LIBC_HEADER[(LIBC[fn], lang)]
+                ctx.item("C05/T2/%s/%s.libc:%s" % (lang, rname, fn), need in have,
+                         "row %s calls %s() but neither its impl_header list nor the helpers it lists bring in %s (has %r)" % (
+                             rname, fn, need, sorted(have)),
+                         sample={"row": rname, "lang": lang, "calls": fn, "needs": need})
+
+
+F_TYPE_HELPER = {"F_array_type": "array_context", "F_capsule_data_type": "capsule_data_helper", "F_capsule_type": "capsule_helper"}
+F_TEXT_FIELDS = ("declare", "arg_decl", "pre_call", "call", "post_call", "arg_c_call")
+
+
+def fortran_type_closure(ctx, tabs):
+    """C05/T3: a Fortran row whose own declarations use one of the helper-defined derived types lists the helper that
+    defines it (closure through dependent_helpers).  Wrapf adds these helpers itself only on the buf_args path of
+    build_arg_list_impl, which a row with arg_c_call bypasses."""
+    for lang, t in sorted(tabs.items()):
+        FH = t["FHelpers"]
+        for rname, row in sorted(t["rows"].items()):
+            if not rname.startswith("f_"):
+                continue
+            text = " ".join(str(x) for f in F_TEXT_FIELDS for x in (row.get(f) or []))
+            listed = [h for h in (row.get("f_helper") or "").split() if h in FH]
+            reach = set(closure(FH, listed, FH))
+            for ph, helper in sorted(F_TYPE_HELPER.items()):
+                if "{%s}" % ph in text:
+                    ctx.item("C05/T3/%s/%s.type:%s" % (lang, rname, ph), helper in reach,
+                             "row %s declares a variable of type {%s} but its f_helper list %r does not reach %s, which "
+                             "defines that type" % (rname, ph, listed, helper),
+                             sample={"row": rname, "uses": ph, "f_helper": listed})
 
 
 # ------------------------------------------------------------------------------------------------- helpers for call parsing
